@@ -59,6 +59,7 @@ def spellings(sec):
     return out
 
 
+FIRST = ["UTC", "GMT", "CST", "EST", "IST", "Z", "+0530", "UTC+05:30", "GMT-9", "-0330", "(PST)", ""]
 SPELL = ["+HHMM", "+HH:MM", "UTC+H", "UTC+HH", "UTC+H:MM", "UTC+HH:MM", "UTC+HHMM", "GMT+H", "GMT+HH", "GMT+H:MM", "GMT+HH:MM", "GMT+HHMM"]
 PAREN_OK = ("UTC+HHMM", "GMT+HHMM", "UTC+HH:MM", "GMT+HH:MM")
 
@@ -71,6 +72,10 @@ def spaces(tier, seed):
         Product("abbreviations", {"ab": order, "case": ["as-is", "lower"], "body": range(len(BODIES)),
                                   "pos": ["end", "paren"], "lang": ["en", "auto"]}),
         Product("no-zone", {"body": range(len(BODIES)), "lang": ["en", "auto"], "suffix": ["", " ", ":"]}),
+        # two-call histories inside the case: a string with another zone (or none) is parsed first
+        Product("offsets-after-another-zone", {"first": FIRST, "off": offs, "spell": SPELL, "case": ["as-is"], "body": [0], "pos": ["end"], "lang": ["en"]}),
+        Product("abbreviations-after-another-zone", {"first": FIRST, "ab": order, "case": ["as-is"], "body": [0], "pos": ["end"], "lang": ["en"]}),
+        Product("no-zone-after-a-zone", {"first": FIRST, "body": range(len(BODIES)), "lang": ["en"], "suffix": [""]}),
     ]
     if tier == "thorough":
         sp.append(Product("abbreviations-awareness-settings", {"ab": order, "case": ["as-is"], "body": [0, 1], "pos": ["end"],
@@ -82,6 +87,9 @@ def run_case(sub, c):
     offs, order, abbr = table()
     body, wall = BODIES[c["body"]]
     st = None
+    if "first" in c:
+        api.outcome_of(api.gdd, ("1 March 2011 09:15 " + c["first"]).strip(), ["en"])
+        sub = sub.split("-after-")[0]
     if sub == "no-zone":
         s = body + c["suffix"]
         o = api.outcome_of(api.gdd, s, ["en"] if c["lang"] == "en" else None)
